@@ -165,8 +165,11 @@ def family(tier, seed, well_posed_only=False):
                          "fix_first_pose": ffp, "idset": 0, "pattern": "real-R2"})
     if tier == "thorough":
         for ffp in (True, False):
+            # (an inlined SE(3) ODOMETRY edge with a full symbolic 6x6 information costs tens of minutes per control path; its error and
+            #  Jacobians are C01/C02's subject and the accumulation above them is proved with those cut, so only the SE(3) landmark
+            #  edge is inlined here)
             real.append({"vertices": [(1, "SE3", False), (2, "R3", False), (3, "SE3", True)],
-                         "edges": [("odometry", (3, 1), 0), ("landmark", (1, 2), 0)], "fix_first_pose": ffp, "idset": 0, "pattern": "real-SE3-R3"})
+                         "edges": [("cut", (3, 1), 3), ("landmark", (1, 2), 0)], "fix_first_pose": ffp, "idset": 0, "pattern": "real-SE3-R3"})
             real.append({"vertices": [(1, "R3", False), (2, "R3", True)], "edges": [("odometry", (2, 1), 0), ("landmark", (1, 2), 0)],
                          "fix_first_pose": ffp, "idset": 0, "pattern": "real-R3"})
         rnd = random.Random(seed)
